@@ -408,7 +408,7 @@ def purity_unify(F, rep):
     rep.analysed(fsu)
     rows = None
     for m in nodes(fn_body(fsu), "Match"):
-        if m.get("scrut_ty", "").count("ty::Purity") == 2:
+        if m.get("scrut_ty", "").count("sylt_compiler::ty::Purity") == 2:
             rows = m
     if rows is None:
         rep.anchor_missing("match on (a_purity, b_purity) in sub_unify")
